@@ -96,6 +96,19 @@ func genCase(i int, seed int64, corpus *gen.Corpus) c10Case {
 	rng := rand.New(rand.NewSource(seed + int64(i)*1000003))
 	var src string
 	switch {
+	case rng.Intn(5) == 0:
+		// a pattern printed from a shape template or from a random full-syntax AST
+		if rng.Intn(2) == 0 {
+			t := &gen.T{R: rng, Let: fullProfile(rng).Letters}
+			if p := gen.Finish(t.Template(rng.Intn(len(gen.TemplateNames))), gen.Env{}, false, gen.PrintOpts{}); p != nil {
+				src = p.Src
+			}
+		} else {
+			src = gen.NewG(rng, fullProfile(rng)).Random(gen.Env{}, false).Src
+		}
+		if src == "" {
+			src = "a(b|c)*d"
+		}
 	case len(corpus.Patterns) > 0 && rng.Intn(10) != 0:
 		src = corpus.Patterns[rng.Intn(len(corpus.Patterns))].Src
 	default:
